@@ -27,7 +27,8 @@ THEOREMS = ["C08_core_roundtrip", "C08_ext_roundtrip", "C08_qualified_roundtrip"
 RULE = ("all 5/7 object types x random 20-byte ids x all 32 qualifier subsets x adversarial origins "
         "(';' '%' '%3B' '%25' '=' '%zz', non-ASCII, astral, lone surrogates, empty, random over a hostile alphabet) x "
         "paths (every single byte value, random bytes, empty, '/'-heavy) x line numbers/ranges (0, equal, reversed, "
-        "50-digit, exactly limit digits); plus invalid constructor arguments; non-trivial = a qualified value with at "
+        "50-digit, exactly limit digits); plus invalid constructor arguments; every qualified value is printed again (itself, "
+        "a twin, a fresh parse) after a caller emptied and polluted the dict returned by qualifiers(); non-trivial = a qualified value with at "
         "least one qualifier whose text needs an escape; distinct = distinct case")
 TRUSTED = ["stdlib behaviour as modelled in coq/lib/Utf8.v, coq/lib/Percent.v, coq/model/Swhid.v: re.fullmatch of "
            "SWHID_RE (\\S = complement of str.isspace, table cross-checked each run in C09), str.split/replace/join, "
@@ -376,6 +377,20 @@ def impl(c):
             res["parsed"] = r
     else:
         res["parsed"] = None
+    if c["k"] == "q" and "ok" in p:
+        # a caller that uses (and edits) what the accessors hand out - the qualifiers() dict, e.g. to build a URL without the
+        # origin - must not change what the value, an equal value or a later parse prints
+        def _again():
+            d = v.qualifiers()
+            if isinstance(d, dict):
+                for k in list(d):
+                    d.pop(k)
+                d["junk"] = "x y;z"
+            twin = _build(c)
+            reparsed = cls.from_string(p["ok"])
+            return [str(v), str(twin), str(reparsed), str(cls.from_string(str(v)))]
+        a = _attempt(_again)
+        res["print_again"] = {"ok": [cps(t) for t in a["ok"]]} if "ok" in a else a
     if c["k"] == "core":
         x = _attempt(lambda: v.to_extended())
         res["ext"] = {"ok": fields_core(x["ok"])} if "ok" in x else x
@@ -471,6 +486,13 @@ def oracle(c, ires, mres):
         return "from_string(str(v)) has different field values: %r" % (r["ok"],)
     if not ires.get("eq"):
         return "from_string(str(v)) != v (or hashes differ)"
+    pa = ires.get("print_again")
+    if pa is not None:
+        if "ok" not in pa:
+            return "printing again after a caller edited the dict returned by qualifiers() raised " + pa.get("error", "?")
+        if any(t != p["ok"] for t in pa["ok"]):
+            return ("after a caller edited the dict returned by qualifiers(), the value / an equal value / a fresh parse of the "
+                    "printed text no longer print the same text: %r" % [uncps(t)[:120] for t in pa["ok"] if t != p["ok"]][:2])
     if c["k"] == "core":
         if ires["ext"].get("ok") != [c["ty"], c["oid"]] or ires["ext_print"] != p["ok"]:
             return "to_extended() changes the text or the id"
